@@ -59,7 +59,7 @@ def _ccw(p):
 
 
 def convex_clip(subject, clip):
-    """Sutherland-Hodgman: intersection polygon of two convex polygons."""
+    """Sutherland-Hodgman: intersection polygon of two convex polygons (signed-distance form, no division by zero)."""
     out = _ccw(list(subject))
     clip = _ccw(list(clip))
     for i in range(len(clip)):
@@ -68,26 +68,22 @@ def convex_clip(subject, clip):
         if not inp:
             break
 
-        def inside(p):
-            return (b[0] - a[0]) * (p[1] - a[1]) - (b[1] - a[1]) * (p[0] - a[0]) >= 0
-
-        def inter(p, q):
-            x1, y1, x2, y2 = p[0], p[1], q[0], q[1]
-            dx, dy = b[0] - a[0], b[1] - a[1]
-            den = dx * (y2 - y1) - dy * (x2 - x1)
-            t = (dx * (a[1] - y1) - dy * (a[0] - x1)) / den
-            # t solves cross(b-a, p + t (q-p) - a) = 0
-            return (x1 + t * (x2 - x1), y1 + t * (y2 - y1))
+        def side(p):
+            return (b[0] - a[0]) * (p[1] - a[1]) - (b[1] - a[1]) * (p[0] - a[0])
 
         s = inp[-1]
+        ds = side(s)
         for e in inp:
-            if inside(e):
-                if not inside(s):
-                    out.append(inter(s, e))
+            de = side(e)
+            if de >= 0:
+                if ds < 0:
+                    t = ds / (ds - de)
+                    out.append((s[0] + t * (e[0] - s[0]), s[1] + t * (e[1] - s[1])))
                 out.append(e)
-            elif inside(s):
-                out.append(inter(s, e))
-            s = e
+            elif ds >= 0:
+                t = ds / (ds - de)
+                out.append((s[0] + t * (e[0] - s[0]), s[1] + t * (e[1] - s[1])))
+            s, ds = e, de
     return out
 
 
